@@ -2,6 +2,7 @@ package main
 
 import (
 	"go/ast"
+	"go/token"
 	"strings"
 )
 
@@ -96,10 +97,43 @@ func c11Run(fs *Facts) {
 				expRes, expWhere = No, w
 			}
 		}
-		if n == "ShiftExpired" || n == "ShiftMatching" {
-			for _, c := range b.CallsSuffix(fn, ".StartTreasureGuard") {
-				if len(locks) == 1 && c.Pos() > locks[0].Pos() {
-					gub, gubWhere = Yes, c11Beacon+":"+itoa(b.Line(c))
+	}
+	// guardUnderBeaconLock: any beacon method that WAITS for a record guard (StartTreasureGuard with a first argument
+	// other than the literal false) between taking b.mu and releasing it
+	for _, d := range b.AST.Decls {
+		fn, ok := d.(*ast.FuncDecl)
+		if !ok || fn.Body == nil || fn.Recv == nil {
+			continue
+		}
+		deferredPos := map[token.Pos]bool{}
+		ast.Inspect(fn, func(x ast.Node) bool {
+			if ds, ok := x.(*ast.DeferStmt); ok {
+				deferredPos[ds.Call.Pos()] = true
+			}
+			return true
+		})
+		var unlocks []token.Pos
+		for _, u := range b.Calls(fn, "b.mu.Unlock", "b.mu.RUnlock") {
+			if !deferredPos[u.Pos()] {
+				unlocks = append(unlocks, u.Pos())
+			}
+		}
+		for _, c := range b.CallsSuffix(fn, ".StartTreasureGuard") {
+			if len(c.Args) > 0 && b.Str(c.Args[0]) == "false" {
+				continue
+			}
+			for _, l := range b.Calls(fn, "b.mu.Lock", "b.mu.RLock") {
+				if l.Pos() > c.Pos() {
+					continue
+				}
+				released := false
+				for _, u := range unlocks {
+					if u > l.Pos() && u < c.Pos() {
+						released = true
+					}
+				}
+				if !released {
+					gub, gubWhere = Yes, c11Beacon+":"+itoa(b.Line(c))+" ("+fn.Name.Name+")"
 				}
 			}
 		}
